@@ -17,6 +17,8 @@ func (V *Verifier) runExtra(spec *propSpec, name string, res *checkResult) {
 		V.extraWriteFrame(spec, strings.Split(strings.TrimPrefix(name, "frame:write:"), ","), res)
 	case name == "frame:budget-fields":
 		V.extraBudgetFields(spec, res)
+	case name == "table:typing":
+		// SMT obligations; generated in runProperty
 	case name == "table:peg":
 		V.extraPegTable(spec, res)
 	case name == "read:no-struct-content":
